@@ -1487,6 +1487,10 @@ def _abort_flow(
         # Skip the rest for all inactive flows
         return
 
+    # An activated flow that fails before it reached its first match statement would fail
+    # again right away, so restarting it would end in an infinite loop
+    failed_while_starting = flow_state.status == FlowStatus.STARTING
+
     # Abort/deactivate all running child flows
     for child_flow_uid in list(flow_state.child_flow_uids):
         # TODO (cschueller): check why this was the case
@@ -1539,6 +1543,7 @@ def _abort_flow(
         not deactivate_flow
         and flow_state.activated > 0
         and not flow_state.new_instance_started
+        and not failed_while_starting
     ):
         event = flow_state.start_event(matching_scores)
         if (
